@@ -63,6 +63,16 @@ CLAIMS = {
              "Cache.file_hash memoisation across compilations in one process, transitive_fingerprint's dependency walk, "
              "Inline._inline_key call sites (the key omits cython_compiler_directives), cache lookup/store I/O.",
         ref="4 C48"),
+    "C05": dict(
+        text="Proof on the abstract CPython object model, for every C integer type of the matrix, that __Pyx_PyLong_As_<T> (compact, "
+             "2-4 digit and C-API paths, all inlined real code from the generated module) returns the value of an exact int object when "
+             "it fits T and (T)-1 with OverflowError otherwise, without UB in the digit arithmetic; and that __Pyx_PyLong_From_<T> "
+             "returns an exact int with the C value. For all int objects (all digit counts) at once.",
+        note="Trusted: dv C front end; dv/pyobj.py: PyLong 3.12 representation contract (incl. ob_digit[0] == 0 for zero), documented "
+             "contracts of PyLong_As*/PyLong_From*, allocation never fails, refcounts not modelled; z3. Not covered: non-int arguments "
+             "(__Pyx_PyNumber_Long: floats are accepted through nb_int - observed, deliberate upstream behaviour, not claimed), "
+             "__Pyx_PyIndex_AsSsize_t, enums, the Limited-API and non-PYLONG_INTERNALS configurations.",
+        ref="4 C05"),
     "C07": dict(
         text="Proof on the abstract CPython object model that __Pyx__PyNumber_PowerOf2 (the `2 ** n` fast path, taken from the C the "
              "working-tree compiler generates) returns either the exact int 2**n (n an exact non-negative int) or CPython's own "
